@@ -194,10 +194,6 @@ impl<'a> Drop for TrackerGuard<'a> {
     fn drop(&mut self) {
         if self.has_ownership.load(Ordering::Relaxed) {
             self.state.remove(self.path);
-        } else if let Some(entry) = self.state.get(self.path)
-            && !entry.owned_by_process
-        {
-            self.state.remove(self.path);
         }
     }
 }
@@ -247,10 +243,12 @@ impl<'a> TrackerGuard<'a> {
                 ProcessState::Starting => Err(
                     ProcessCleanerCreateError::ProcessIsInitializedOrCrashedDuringInitialization,
                 ),
+                // the entry belongs to a process guard of this process, it must stay `Dead` when
+                // the cleaner cannot be acquired, therefore the guard never owns it
                 ProcessState::Dead => Ok(Self {
                     state,
                     path,
-                    has_ownership: AtomicBool::new(true),
+                    has_ownership: AtomicBool::new(false),
                 }),
                 ProcessState::DoesNotExist => {
                     fatal_panic!(from "TrackerGuard::new_cleaning_up()",
@@ -258,6 +256,15 @@ impl<'a> TrackerGuard<'a> {
                 }
             },
         }
+    }
+
+    /// Marks the entry as [`ProcessState::CleaningUp`] and keeps it in the tracker after the
+    /// guard went out of scope. It is removed when the [`ProcessCleaner`] is dropped or abandoned.
+    fn commit_cleaning_up(&mut self) {
+        if let Some(entry) = self.state.get_mut(self.path) {
+            entry.state = ProcessState::CleaningUp;
+        }
+        self.release_ownership();
     }
 
     fn acquire_ownership(&self) {
@@ -1208,8 +1215,12 @@ impl ProcessCleaner {
         let mut lock_guard = fatal_panic!(from origin, when PROCESS_STATE_TRACKING.lock(),
             "This should never happen. {msg} since the global mutex could not be locked.");
 
-        match TrackerGuard::new_cleaning_up(path, &mut lock_guard) {
-            Ok(v) => v.release_ownership(),
+        // The guard must stay alive until the end of the function. An entry that was added for
+        // a process state of another process is removed again on every error path and kept on
+        // success. Without the entry, a `ProcessMonitor::state()` call from within this process
+        // would open and close the owner lock file which releases the lock of the cleaner.
+        let mut tracker_guard = match TrackerGuard::new_cleaning_up(path, &mut lock_guard) {
+            Ok(v) => v,
             Err(e) => {
                 fail!(from origin, with e,
                     "{msg} since the internal tracking failed. [{e:?}]");
@@ -1281,9 +1292,7 @@ impl ProcessCleaner {
         context_file.acquire_ownership();
         state_file.acquire_ownership();
         owner_lock_file.acquire_ownership();
-        lock_guard
-            .entry(*path)
-            .and_modify(|v| v.state = ProcessState::CleaningUp);
+        tracker_guard.commit_cleaning_up();
         Ok(Self {
             files: StateFiles {
                 state: Some(state_file),
